@@ -2,6 +2,8 @@ import Mercure.Model.Wire
 import Mercure.Model.Selector
 import Mercure.Model.SubList
 import Mercure.Model.Subscriber
+import Mercure.Model.Publish
+import Mercure.Model.Subscribe
 import Mercure.Generated.Facts
 import Std.Data.HashMap
 /-
@@ -22,7 +24,25 @@ structure SubSpec where
   allowed : List Str
   deriving Repr
 
+/-- Token facts as recomputed by the harness's own decoder/verifier (one signature verdict per role). -/
+structure TokFacts where
+  wellFormed : Bool
+  alg : Str
+  sigPub : Bool
+  sigSub : Bool
+  expOk : Bool
+  nbfOk : Bool
+  claims : Claims
+
+def optList (s : String) : Option (Option (List Str)) :=
+  if s == "~" then some none else (unhexList s).map some
+
+def optStr (s : String) : Option (Option Str) :=
+  if s == "~" then some none else (unhex s).map some
+
 structure DSt where
+  cfg : HubCfg := {}
+  toks : Std.HashMap Str TokFacts := {}
   oracle : Oracle := {}
   store  : Store := Store.new 0 0
   sf     : SkipFilter Nat := SkipFilter.new 0
@@ -36,8 +56,80 @@ def sfTest (st : DSt) (label : Nat) (key : Str) : Bool :=
     let (ts, p) := decode key
     matchTopics (matchSpec st.oracle.toT) sp.sels sp.allowed ts p
 
+def DSt.tok (st : DSt) (pubRole : Bool) (s : Str) : Option Claims :=
+  match st.toks.get? s with
+  | none => none
+  | some t =>
+    validate (if pubRole then st.cfg.pubAlg else st.cfg.subAlg)
+      { wellFormed := t.wellFormed, alg := t.alg, sigOk := if pubRole then t.sigPub else t.sigSub,
+        expOk := t.expOk, nbfOk := t.nbfOk, claims := t.claims }
+
+def parseAuthReq (isPost hdrs query cookie origin referer refOrigin : String) : Option AuthReq := do
+  let h ← optList hdrs
+  let q ← optList query
+  let c ← optStr cookie
+  let o ← unhex origin
+  let r ← unhex referer
+  let ro ← optStr refOrigin
+  pure { authHeaders := h, queryAuth := q, cookie := c, isPost := bool isPost, origin := o, referer := r, refererOrigin := ro }
+
+def showAuthErr : AuthErr → String
+  | .invalidHeader => "invalidHeader" | .invalidQuery => "invalidQuery" | .invalidJWT => "invalidJWT"
+  | .noOrigin => "noOrigin" | .badReferer => "badReferer" | .originNotAllowed => "originNotAllowed"
+
+def showAuth : Except AuthErr (Option Claims) → String
+  | .error e => "err:" ++ showAuthErr e
+  | .ok none => "anon"
+  | .ok (some c) => "ok:" ++ hex c.mercure.payload
+
 def step (st : DSt) (line : String) : DSt × String :=
   match line.splitOn "\t" with
+  | ["hub.cfg", pubAlg, subKey, subAlg, anon, origins, compat7, subs] =>
+    match unhex pubAlg, unhex subAlg, unhexList origins with
+    | some pa, some sa, some os =>
+      ({ st with cfg := { pubAlg := pa, subKey := bool subKey, subAlg := sa, anonymous := bool anon,
+                          publishOrigins := os, compat7 := bool compat7, subscriptions := bool subs,
+                          minHeader := Facts.minHeaderLen, minQuery := Facts.minQueryLen,
+                          spacePlus := Facts.idEscapeFn == "url.QueryEscape" },
+                 toks := {} }, "ok")
+    | _, _, _ => (st, "bad-op")
+  | ["tok", t, wf, alg, sigPub, sigSub, expOk, nbfOk, pub, sub, payload, nsPresent, nsPub, nsSub, nsPayload, exp] =>
+    match unhex t, unhex alg, optList pub, optList sub, unhex payload, optList nsPub, optList nsSub, unhex nsPayload with
+    | some t, some alg, some pub, some sub, some payload, some nsPub, some nsSub, some nsPayload =>
+      let c : Claims := { mercure := { publish := pub, subscribe := sub, payload := payload },
+                          namespaced := if bool nsPresent then some { publish := nsPub, subscribe := nsSub, payload := nsPayload } else none,
+                          exp := exp.toNat? }
+      ({ st with toks := st.toks.insert t { wellFormed := bool wf, alg := alg, sigPub := bool sigPub, sigSub := bool sigSub,
+                                            expOk := bool expOk, nbfOk := bool nbfOk, claims := c } }, "ok")
+    | _, _, _, _, _, _, _, _ => (st, "bad-op")
+  | ["authz", role, isPost, hdrs, query, cookie, origin, referer, refOrigin] =>
+    match parseAuthReq isPost hdrs query cookie origin referer refOrigin with
+    | some r =>
+      let pubRole := role == "p"
+      (st, showAuth (authorize st.cfg.minHeader st.cfg.minQuery (st.tok pubRole) r
+                      (if pubRole then st.cfg.publishOrigins else [])))
+    | none => (st, "bad-op")
+  | ["sub.decide", isPost, hdrs, query, cookie, origin, referer, refOrigin, topics, lh, lq, ll] =>
+    match parseAuthReq isPost hdrs query cookie origin referer refOrigin, unhexList topics, unhex lh, unhex lq, optList ll with
+    | some a, some topics, some lh, some lq, some ll =>
+      match subscribeDecision st.cfg (st.tok false) { auth := a, topics := topics, leid := { header := lh, query := lq, legacy := ll } } with
+      | .refused status body => (st, s!"{status} {hex body}")
+      | .accepted c priv leid =>
+        (st, s!"200 who={match c with | some c => "ok:" ++ hex c.mercure.payload | none => "anon"} private={hexList priv} leid={hex leid}")
+    | _, _, _, _, _ => (st, "bad-op")
+  | ["api.auth", isPost, hdrs, query, cookie, origin, referer, refOrigin, url] =>
+    match parseAuthReq isPost hdrs query cookie origin referer refOrigin, unhex url with
+    | some a, some url => (st, showBool (apiAuthorized st.cfg (matchSpec st.oracle.toT) (st.tok false) a url))
+    | _, _ => (st, "bad-op")
+  | ["pub", isPost, hdrs, query, cookie, origin, referer, refOrigin, formOk, topics, retry, priv, data, id, type] =>
+    match parseAuthReq isPost hdrs query cookie origin referer refOrigin, unhexList topics, unhex retry, unhex data, unhex id, unhex type with
+    | some a, some topics, some retry, some data, some id, some type =>
+      let r : PubReq := { auth := a, formOk := bool formOk, topics := topics, retryStr := retry, priv := bool priv,
+                          data := data, id := id, type := type }
+      match publish st.cfg (matchSpec st.oracle.toT) (st.tok true) r with
+      | .refused status body => (st, s!"{status} {hex body}")
+      | .accepted u => (st, s!"200 id={hex u.id} topics={hexList u.topics} priv={showBool u.priv} retry={u.retry} type={hex u.type} data={hex u.data}")
+    | _, _, _, _, _, _ => (st, "bad-op")
   | ["or.valid", s, v] =>
     match unhex s with
     | some s => ({ st with oracle := { st.oracle with valid := st.oracle.valid.insert s (bool v) } }, "ok")
